@@ -145,6 +145,31 @@ def split(text: str):
     return out
 
 
+def inline_comments(text: str):
+    """-> [(source, own_line)] for the comments that stand *inside* a statement of text (code of the same statement
+    before and after them), in order; own_line = there is a line break between the code before it and the comment.
+    Comments between statements / before the terminating semicolon are not included."""
+    out = []
+    cur = []
+    for tok in tokens(text) + [("semi", "", None)]:
+        if tok[0] != "semi":
+            cur.append(tok)
+            continue
+        code_at = [i for i, t in enumerate(cur) if t[0] not in ("ws", "lcomment", "bcomment")]
+        if code_at:
+            own_line = False
+            for t in cur[code_at[0] : code_at[-1]]:
+                if t[0] == "ws":
+                    own_line = own_line or "\n" in t[1]
+                elif t[0] in ("lcomment", "bcomment"):
+                    out.append((t[1], own_line))
+                    own_line = own_line or "\n" in t[1]
+                else:
+                    own_line = False
+        cur = []
+    return out
+
+
 def normalise(stmt: str) -> str:
     """The `code` form of a single statement (used to compare a piece of a composed text with the statement it was
     composed from)."""
